@@ -429,6 +429,41 @@ func propC17(a *Analysis, r *Registry) {
 			// Max<=0 → nil
 			fc4 := X.Under(fn, X.AssumeCond(env.MustParse("o.Max<=0"), true))
 			b.EqRF(rB, name+"/Max<=0→nil", b.pos(fn), fc4.Sub(fc4.RetVal(0)), S.Var("nil", false), "no ticks when none are allowed")
+			// a one-point domain has that point as its only tick: no level is searched for
+			fc5 := X.Under(fn, X.AssumeCond(env.MustParse("o.Max<=0"), false), X.AssumeCond(env.MustParse("s.Min==s.Max"), true))
+			nSearch := len(fc5.CallsTo("scale.(*TickOptions).FindLevel"))
+			one := false
+			if m5 := fc5.Sub(fc5.RetVal(0)); nSearch == 0 {
+				fc5.Ctx.Instrs(func(in ssa.Instruction) {
+					st, ok := in.(*ssa.Store)
+					if !ok {
+						return
+					}
+					if at := fc5.Val(st.Addr).SingleAtom(); at != nil && at.Name == "&idx" && at.Args[0].Equal(m5) {
+						if v := fc5.Val(st.Val); v.Equal(env.MustParse("s.Min")) || v.Equal(env.MustParse("s.Max")) {
+							one = true
+						}
+					}
+				})
+			}
+			if os.Getenv("GMSA_DEBUG_C17B") != "" {
+				fmt.Fprintf(os.Stderr, "C17B %s nSearch=%d ret=%s\n", name, nSearch, fc5.Sub(fc5.RetVal(0)))
+			}
+			if one {
+				r.OK("C-decision", name+"/one-point-domain", b.pos(fn), "Min == Max: the point itself is returned, without a level search")
+			} else {
+				r.Fail("C-decision", name+"/one-point-domain", b.pos(fn), "a one-point domain (Min == Max) is not answered with that point before the level search")
+			}
+			// the ticker works on the ordered domain whichever way the ends were given (Linear)
+			if ta := fc.Val(tkv).SingleAtom(); typ == "Linear" && ta != nil && len(ta.Args) == 2 {
+				sc := unref(ta.Args[0]).SingleAtom()
+				if sc == nil || sc.Name != "mk:Linear" || len(sc.Args) < 2 {
+					r.Undecided("C-decision", name+"/ordered-domain", a.W.InstrPos(call), "anchor: the ticker's scale is not a Linear value built in Ticks: "+clip(ta.Args[0].String(), 120))
+				} else {
+					b.Eq("C-decision", name+"/ordered-domain/Min", a.W.InstrPos(call), sc.Args[0], env, "ite(s.Max<s.Min, s.Max, s.Min)")
+					b.Eq("C-decision", name+"/ordered-domain/Max", a.W.InstrPos(call), sc.Args[1], env, "ite(s.Max<s.Min, s.Min, s.Max)")
+				}
+			}
 		})
 	}
 	// Nice
@@ -457,6 +492,28 @@ func propC17(a *Analysis, r *Registry) {
 			fcNo := X.Under(fn, append(base, X.AssumeEq(okv, S.False()))...)
 			b.Eq(rB, name+"/unchanged-on-failure/Min", b.pos(fn), fcNo.FieldAtExit(0, "Min"), e, "s.Min")
 			b.Eq(rB, name+"/unchanged-on-failure/Max", b.pos(fn), fcNo.FieldAtExit(0, "Max"), e, "s.Max")
+			// the domain the search runs on (what the fields hold when no level fits): a reversed
+			// domain put in order, a one-point domain widened outward — however that is written
+			func() {
+				rev := []Assumption{X.AssumeCond(env.MustParse("s.Min==s.Max"), false), X.AssumeCond(env.MustParse("s.Max<s.Min"), true)}
+				fcR := X.Under(fn, rev...)
+				cR := fcR.TheCallTo("scale.(*TickOptions).FindLevel")
+				fcRno := X.Under(fn, append(rev, X.AssumeEq(tupleOf(fcR, cR, 1), S.False()))...)
+				b.Eq("C-decision", name+"/reversed-domain/Min", b.pos(fn), fcRno.FieldAtExit(0, "Min"), e, "s.Max")
+				b.Eq("C-decision", name+"/reversed-domain/Max", b.pos(fn), fcRno.FieldAtExit(0, "Max"), e, "s.Min")
+				one := []Assumption{X.AssumeCond(env.MustParse("s.Min==s.Max"), true)}
+				fcO := X.Under(fn, one...)
+				cO := fcO.TheCallTo("scale.(*TickOptions).FindLevel")
+				fcOno := X.Under(fn, append(one, X.AssumeEq(tupleOf(fcO, cO, 1), S.False()))...)
+				dmin, dmax := fcOno.Sub(fcOno.FieldAtExit(0, "Min")).Sub(env.MustParse("s.Min")), fcOno.Sub(fcOno.FieldAtExit(0, "Max")).Sub(env.MustParse("s.Max"))
+				c1, ok1 := dmin.IsConst()
+				c2, ok2 := dmax.IsConst()
+				if ok1 && ok2 && c1.Sign() < 0 && c2.Sign() > 0 {
+					r.OK("C-decision", name+"/one-point-domain", b.pos(fn), "a one-point domain is widened outward on both sides before the search")
+				} else {
+					r.Fail("C-decision", name+"/one-point-domain", b.pos(fn), "a one-point domain is not widened outward on both sides: Min' − Min = "+clip(dmin.String(), 60)+", Max' − Max = "+clip(dmax.String(), 60))
+				}
+			}()
 		})
 	}
 	if fn := b.Fn(rB, "scale.(*Log).Nice"); fn != nil {
@@ -485,6 +542,14 @@ func propC17(a *Analysis, r *Registry) {
 			fcNo := X.Under(fn, append(base, X.AssumeEq(okv, S.False()))...)
 			b.Eq(rB, name+"/unchanged-on-failure/Min", b.pos(fn), fcNo.FieldAtExit(0, "Min"), e, "s.Min")
 			b.Eq(rB, name+"/unchanged-on-failure/Max", b.pos(fn), fcNo.FieldAtExit(0, "Max"), e, "s.Max")
+			// a one-point domain is left as it is
+			fcOne := X.Under(fn, X.AssumeCond(env.MustParse("s.Min==s.Max"), true))
+			if len(fcOne.CallsTo("scale.(*TickOptions).FindLevel")) == 0 {
+				b.Eq("C-decision", name+"/one-point-domain/Min", b.pos(fn), fcOne.FieldAtExit(0, "Min"), e, "s.Min")
+				b.Eq("C-decision", name+"/one-point-domain/Max", b.pos(fn), fcOne.FieldAtExit(0, "Max"), e, "s.Max")
+			} else {
+				r.Fail("C-decision", name+"/one-point-domain", b.pos(fn), "a one-point domain (Min == Max) is not left unchanged: the level search runs on it")
+			}
 			// a negative domain: the powers are negated and exchanged (Min' = −base^lastN, Max' = −base^firstN)
 			negBase := []Assumption{X.AssumeCond(env.MustParse("s.Min==s.Max"), false), X.AssumeCond(env.MustParse("s.Min<0"), true)}
 			fcN := X.Under(fn, negBase...)
@@ -551,7 +616,10 @@ func propC17(a *Analysis, r *Registry) {
 				r.Fail("C-decision", fname+"/domain-order", b.pos(fn), "expected both ends exchanged for a reversed domain, found "+itoa(nSwap)+" store(s)")
 			}
 			if nSwap == 0 && nWiden == 0 {
-				r.OK("C-decision", fname+"/domain-order", b.pos(fn), "the domain is used as given")
+				// (no store into the fields before the search: the ordering may be done in locals —
+				// then the value rules on the ticker's scale speak; if the scale is used through the
+				// receiver itself, as in Nice, nothing orders it)
+				r.OK("C-decision", fname+"/domain-order", b.pos(fn), "no in-place ordering (decided on the ticker's scale / on the fields left when no level fits)")
 			}
 		})
 	}
